@@ -17,6 +17,28 @@ CLAIMS = {
                     "consistent; proved for all register masks, sizes up to 2^28, alignments, attribute bits and every architecture with populated ArchTraits. Prolog/epilog emission is not covered (partial).",
             "note": COMMON_NOTE + " Precondition = states FuncFrame::init plus the public setters produce (c_frame_pre in contracts/c07_frame.h)."},
 }
+CLAIMS.update({
+    "C06": {"category": "proof",
+            "text": "Argument classification is verified modularly for x86-64 System V, Win64, AArch64 AAPCS64 and Apple arm64: init_call_conv is proved to produce exactly the ABI's CallConv record "
+                    "(argument register order, callee-saved sets, red zone / home space, alignment; loop-free, complete), and init_func_detail - given that record - is proved to put a witness "
+                    "argument of an arbitrary signature of integer/float/vector types at the location an independent left-to-right ABI scan (spec/abi.h) prescribes, with the ABI's stack-area size. "
+                    "The argument loops are bounded by the code's own kMaxFuncArgs = 32: the thorough tier unwinds them completely (proof), the quick tier checks signatures of <= 10 arguments. "
+                    "Partial: return values, 32-bit conventions, vectorcall stack offsets, MMX/x87 types and the entry-move solver (emit_args_assignment) are not covered.",
+            "note": COMMON_NOTE + " One known finding (KF-C06-1, System V vector stack alignment) is re-checked on the complement of its witness class on every run."},
+    "C09": {"category": "model_checking",
+            "text": "Layer 1: the bit-vector primitives (fill/clear/set/get/index_of) are verified word-exactly against reference masks. Layer 2: JitAllocatorBlock::mark_allocated_area / "
+                    "mark_released_area / mark_shrunk_area / clear_block are verified to preserve the representation invariant wf_block (used/stop consistency, popcount == area_used, Empty <=> only "
+                    "padding used, every free granule inside the search window, incremental and clean caches exact) and to change exactly the named run and the pool accounting - an inductive "
+                    "step over arbitrary histories, for every well-formed block state. Bounded in the bit-vector length (64 granules quick / 128 thorough). JitAllocator::alloc/release/shrink "
+                    "themselves (block list, RB-tree, range search, virtual memory) are not yet under contract: partial.",
+            "note": COMMON_NOTE + " Bit-vector functions are inlined into the block units (their bodies are re-verified in context)."},
+    "C18": {"category": "model_checking",
+            "text": "Arena::_alloc_oneshot (block chain stays free of dangling links, result aligned/inside a fresh block, failure leaves the bump pointer), String::prepare (three "
+                    "representations, size/capacity/NUL invariant, append keeps contents, failed allocation leaves the string untouched, old heap buffer freed exactly once) and the bit-vector "
+                    "primitives are under contract, for bounded heap shapes (<= 3 arena blocks, string buffers <= 40 bytes, vectors <= 2 words) and symbolic sizes. ArenaVector/Hash/Tree/List and "
+                    "the remaining String operations are not yet under contract: partial.",
+            "note": COMMON_NOTE + " malloc/free: CBMC's model with --malloc-may-fail --malloc-fail-null; memcpy/memset: byte-loop stubs."},
+})
 NOT_APPLICABLE = {
     "C05": "whole-program semantic preservation of register allocation is a relational property over unbounded CFGs and an ISA semantics; no per-function contract in reach of CBMC expresses it",
     "C08": "byte equality of two emitters over all call sequences is a relational history property through virtual emitter interfaces and the whole assembler; not expressible as function contracts here",
